@@ -120,25 +120,39 @@ Theorem csv_default_all_quoted : forall qf, In qf src_csv_format -> fst qf = QDe
 Proof. apply all_quoter_dec. reflexivity. Qed.
 Print Assumptions csv_default_all_quoted.
 
-(* what does hold: an RFC 4180 reader recovers every row when no field holds a double quote ... *)
+(* the backslash-escape reader (escapechar = backslash, no quote doubling) recovers every row of
+   the default csv report, WHATEVER the fields hold: quoted() writes a double quote as backslash
+   dquote and a backslash as two backslashes *)
+Theorem csv_default_roundtrip : forall xs,
+  csv_read_bs (csv_out src_csv_format xs) = Some (plain_rows (csv_rows src_csv_format xs)).
+Proof.
+  intros xs. apply csv_out_default_bs; [discriminate|exact csv_default_all_quoted].
+Qed.
+Print Assumptions csv_default_roundtrip.
+
+(* the same for any rows of cells written with quoted() *)
+Theorem csv_quoted_roundtrip : forall rows,
+  Forall (fun row => row <> [] /\ Forall (fun c => fst c = QDefault) row) rows ->
+  csv_read_bs (csv_text rows) = Some (plain_rows rows).
+Proof.
+  intros rows H. apply csv_bs_read_lemma.
+  eapply Forall_impl; [|exact H]. intros row [Hne Hq]. split; [exact Hne|].
+  eapply Forall_impl; [|exact Hq]. intros c Hc. unfold bs_ok. rewrite Hc. exact I.
+Qed.
+Print Assumptions csv_quoted_roundtrip.
+
+(* the other conventional reader, RFC 4180 (doubled quotes), recovers the default report when no
+   field holds a double quote or a backslash ... *)
 Theorem csv_default_roundtrip_rfc_partial : forall xs,
-  (forall x p f, In x xs -> In p (x_posts x) -> ~ In 34 (field_value x p f)) ->
+  (forall x p f, In x xs -> In p (x_posts x) ->
+                 ~ In 34 (field_value x p f) /\ ~ In 92 (field_value x p f)) ->
   csv_read_rfc (csv_out src_csv_format xs) = Some (plain_rows (csv_rows src_csv_format xs)).
 Proof.
   intros xs H. apply csv_out_default_rfc; [discriminate|exact csv_default_all_quoted|exact H].
 Qed.
 Print Assumptions csv_default_roundtrip_rfc_partial.
 
-(* ... and a backslash reader recovers every row when no field holds a backslash *)
-Theorem csv_default_roundtrip_bs_partial : forall xs,
-  (forall x p f, In x xs -> In p (x_posts x) -> ~ In 92 (field_value x p f)) ->
-  csv_read_bs (csv_out src_csv_format xs) = Some (plain_rows (csv_rows src_csv_format xs)).
-Proof.
-  intros xs H. apply csv_out_default_bs; [discriminate|exact csv_default_all_quoted|exact H].
-Qed.
-Print Assumptions csv_default_roundtrip_bs_partial.
-
-(* the hypotheses are satisfiable: a report both readers recover *)
+(* the hypothesis is satisfiable, and both readers then agree *)
 Definition wit_amt : amt := mkAmt [36; 49] [80] (Some [36]) [49].
 Definition wit_post : post := mkPost 2 0 0 [65; 58; 66] wit_amt None (Some [32; 110]).
 Definition wit_xact (payee : str) : xact := mkXact 1 2020 1 2 1 (Some [99]) payee None [wit_post].
@@ -150,40 +164,27 @@ Example csv_default_clean_report :
      = csv_read_rfc (csv_out src_csv_format [wit_xact [80; 44; 59; 60]]).
 Proof. split; vm_compute; reflexivity. Qed.
 
-(* the full statement `a conventional reader recovers the fields` is FALSE of the faithful model
-   under either reader (finding F10): quoted() writes backslash-dquote for a double quote, which an RFC reader
-   takes for the end of the cell, and copies a backslash, which a backslash reader takes for an
-   escape. *)
+(* the payee a dquote b backslash c, which no reader recovered before quoted() escaped the
+   backslash, is recovered by the backslash reader *)
+Example csv_default_hard_payee :
+  csv_read_bs (csv_out src_csv_format [wit_xact [97; 34; 98; 92; 99]])
+  = Some [[[50;48;50;48;47;48;49;47;48;50]; [99]; [97; 34; 98; 92; 99]; [65; 58; 66]; [36]; [49]; [42]; [32; 110]]].
+Proof. vm_compute. reflexivity. Qed.
+
+(* ... but not in general: the default format is written for the backslash dialect, and the RFC
+   4180 reader is refuted by a field with a double quote (it takes backslash dquote for the end of
+   the cell) and by a field with a backslash (it reads both backslashes).  This is a statement
+   about that reader, not a defect: the property asks for one conventional reader. *)
 Theorem csv_default_refuted_rfc : exists xs,
   csv_read_rfc (csv_out src_csv_format xs) <> Some (plain_rows (csv_rows src_csv_format xs)).
 Proof. exists [wit_xact [97; 34; 98]]. vm_compute. discriminate. Qed.      (* payee a dquote b *)
 Print Assumptions csv_default_refuted_rfc.
 
-Theorem csv_default_refuted_bs : exists xs,
-  csv_read_bs (csv_out src_csv_format xs) <> Some (plain_rows (csv_rows src_csv_format xs)).
-Proof. exists [wit_xact [97; 92]]. vm_compute. discriminate. Qed.          (* payee a backslash *)
-Print Assumptions csv_default_refuted_bs.
-
-(* a backslash inside a field is silently dropped by the backslash reader: a\b reads as ab *)
-Theorem csv_default_refuted_bs_inner : exists xs rows,
-  csv_read_bs (csv_out src_csv_format xs) = Some rows /\
+Theorem csv_default_refuted_rfc_backslash : exists xs rows,
+  csv_read_rfc (csv_out src_csv_format xs) = Some rows /\
   rows <> plain_rows (csv_rows src_csv_format xs).
 Proof.
-  exists [wit_xact [97; 92; 98]]. eexists. split; [vm_compute; reflexivity|].
+  exists [wit_xact [97; 92; 98]]. eexists. split; [vm_compute; reflexivity|].      (* payee a backslash b *)
   vm_compute. discriminate.
 Qed.
-Print Assumptions csv_default_refuted_bs_inner.
-
-(* one report that NEITHER reader recovers: a double quote and a backslash in the same field *)
-Theorem csv_default_refuted_both : exists xs,
-  csv_read_rfc (csv_out src_csv_format xs) <> Some (plain_rows (csv_rows src_csv_format xs)) /\
-  csv_read_bs (csv_out src_csv_format xs) <> Some (plain_rows (csv_rows src_csv_format xs)).
-Proof. exists [wit_xact [97; 34; 98; 92; 99]]. split; vm_compute; discriminate. Qed.
-Print Assumptions csv_default_refuted_both.
-
-(* the repair proposed for F10 (fn_quoted writes a backslash as two backslashes, like emacs.cc
-   escape_string): then the backslash reader recovers every row, whatever the fields hold *)
-Theorem csv_patched_quoting_roundtrip_bs : forall rows,
-  Forall (fun row => row <> []) rows -> csv_read_bs (csv_text_patched rows) = Some rows.
-Proof. exact csv_patched_read_lemma. Qed.
-Print Assumptions csv_patched_quoting_roundtrip_bs.
+Print Assumptions csv_default_refuted_rfc_backslash.
